@@ -5,8 +5,10 @@ import Casket.Spec.Retry
 import Driver.Proto
 /-
 Streams of C05.
-  c05.select  kind  pool  robin  keyhex  rands  seed
+  c05.select  kind  pool  robin  keyhex  rands  seed  [layout]
      pool  = comma list of  d/c/m  (d: 0 up, else down; conns; maxConns)
+     layout = how the upstream block is WRITTEN (backends on the directive line / on `upstream` lines, order of the
+             lines; the cap as `max_conns`).  The model and the judge take the block's meaning: the field is not read.
      out   = <choice or -> TAB <new robin>
   c05.fnv     hexbytes      out = hash
 -/
@@ -42,11 +44,15 @@ structure Case where
   hash : Nat
   rands : List Nat
 
-def parseCase : List String → Option Case
+def parseCase6 : List String → Option Case
   | [k, p, r, key, rs, _seed] => do
     pure { kind := ← parseKind k, pool := ← parsePool p, robin := ← r.toNat?,
            hash := fnv32a (← Driver.unhex key), rands := ← Driver.natList rs }
   | _ => none
+
+/-- a seventh field is the layout of the block: every spelling of one meaning has the same answer -/
+def parseCase (f : List String) : Option Case :=
+  if f.length = 7 then parseCase6 (f.take 6) else parseCase6 f
 
 def selectModel (f : List String) : String :=
   match parseCase f with
@@ -117,6 +123,8 @@ def fnvModel : List String → String
      events = - or comma list of  a>j=u/c/f : when attempt number a of the request (0-based, over all backends) starts,
              backend j gets health flag u, c conns of other requests, f failures on record (comes back / goes away)
              (the field may be missing = -)
+     layout (optional 13th field) = how the block is written: backends on the directive line / `upstream` lines, order of
+             the lines; not read by the model or the judge
      durations in milliseconds = ticks
      out   = <result> TAB <attempts: host:body,...>   result = ok|502|499|413
 -/
@@ -173,7 +181,10 @@ def parseRetry12 : List String → Option (Cfg × Nat)
 
 open Casket.Retry in
 def parseRetry (f : List String) : Option (Cfg × Nat) :=
-  if f.length = 11 then parseRetry12 (f ++ ["-"]) else parseRetry12 f
+  if f.length = 11 then parseRetry12 (f ++ ["-"])
+  -- a 13th field is the layout of the upstream block (how it is written); the model takes its meaning
+  else if f.length = 13 then parseRetry12 (f.take 12)
+  else parseRetry12 f
 
 open Casket.Retry in
 def showResult : Result → String
